@@ -178,8 +178,15 @@ class GarbageCollector:
 
         try:
             markers = self.storage.list_files(INFLIGHT_PATH)
-        except Exception:
-            markers = []
+        except Exception as e:
+            # A failed marker listing is NOT an empty one: without the markers
+            # the files of running transactions look like ordinary orphans.
+            # (A table that never had a transaction has no such directory, and
+            # list_files answers [] for that without raising.)
+            raise GarbageCollectionAborted(
+                f"Aborting GC: cannot list in-flight markers under {INFLIGHT_PATH}: {e}. "
+                f"Files of running transactions could not be protected. Nothing was deleted."
+            ) from e
 
         for marker_path in markers:
             norm_marker = self._normalize_path(marker_path)
@@ -192,10 +199,10 @@ class GarbageCollector:
             basename = norm_marker.rsplit("/", 1)[-1]
             if not basename.endswith(".inflight"):
                 continue
-            data_rel = self._marker_target(norm_marker, basename)
+            targets = self._marker_targets(norm_marker, basename)
 
             if age_ok:
-                protected.add(data_rel)
+                protected.update(targets)
             else:
                 logger.warning(
                     f"Removing abandoned in-flight marker {norm_marker} "
@@ -206,19 +213,26 @@ class GarbageCollector:
                 except Exception as e:
                     logger.warning(f"Failed to delete stale marker {norm_marker}: {e}")
                     # Could not remove the marker -> keep protecting its file
-                    protected.add(data_rel)
+                    protected.update(targets)
 
         return protected
 
-    def _marker_target(self, marker_path: str, basename: str) -> str:
-        """Resolve which file a marker protects.
+    def _marker_targets(self, marker_path: str, basename: str) -> Set[str]:
+        """Resolve which file(s) a marker protects.
 
         The marker's payload names the protected path explicitly (it may be a
         data file, a manifest, or a manifest list). Markers written by older
         versions carry no payload; for those the historical convention -
-        "<data file basename>.inflight" under data/ - is assumed.
+        "<data file basename>.inflight" under data/ - applies.
+
+        When the payload cannot be read or parsed the marker's own name is all
+        that is known, and it does not say which directory the file lives in:
+        a manifest marker read as "data/<name>" would leave the manifest
+        unprotected. So the fallback protects the name in BOTH collected
+        directories (fail closed: over-protecting only delays an orphan).
         """
-        fallback = f"data/{basename[: -len('.inflight')]}"
+        name = basename[: -len('.inflight')]
+        fallback = {f"data/{name}", f"{self.file_manager.manifests_path}/{name}"}
         try:
             payload = json.loads(self.storage.read_file(marker_path).decode("utf-8"))
             target = payload.get("file_path")
@@ -226,7 +240,7 @@ class GarbageCollector:
             return fallback
         if not isinstance(target, str) or not target:
             return fallback
-        return self._normalize_path(target)
+        return {self._normalize_path(target)}
 
     def _gc_prefix(self, prefix: str, reachable_set: Set[str], grace_period_ms: int) -> int:
         """Garbage collect files in a specific prefix."""
